@@ -158,7 +158,7 @@ def pipeline_step(ctx, name, lib, parts, sep, pipe):
     """C04 ∘ C01: the user's call chain `lib.Estimate(lib.GetDescriptors(x), 'thermochem')` on the mixture and on its components —
     H/RT, Cp/R, S/R, G/RT at the library's temperatures are additive, failures propagate as PIPE_mixture_additive states, the
     quadratic form gets the cross term; each molecule also goes to the composed Lean model (`pipe.estimate_batch`)."""
-    if pipe.mixtures[name] >= ctx.n(30, 500) or ctx.time_left() < 90:
+    if pipe.mixtures[name] >= ctx.n(24, 500) or ctx.time_left() < 90:
         return
     pipe.mixtures[name] += 1
     info, Ts, _ = pipe.open(name, lib)
@@ -193,7 +193,7 @@ def variant_step(ctx, name, lib, pipe):
         dj = what['disjoint'] or [None, None]
         return -((dj[0] in ds[0]) + (dj[1] in ds[1]) + (what['cut'] in ds[0] | ds[1]))
     pairs.sort(key=score)
-    for a, b in pairs[:ctx.n(9, 120)]:
+    for a, b in pairs[:ctx.n(7, 120)]:
         outs = [pipe.add(vname, lib2, a), pipe.add(vname, lib2, b)]
         mix = pipe.add(vname, lib2, a + '.' + b)
         ctx.count('pipe_variant_mixtures')
